@@ -1,7 +1,7 @@
 (* C09 -- the instance cache under line-atomic interleavings.
 
    A small-step interleaving semantics of sqlobject/cache.py (CacheSet /
-   CacheFactory, cache=True) and of the cache-relevant statements of
+   CacheFactory, both values of the `cache` option: s_docache) and of the cache-relevant statements of
    sqlobject/main.py (SQLObject.get, expire, _SO_finishCreate,
    sqlmeta.expireAll).  One transition = one executed source statement of one
    thread; the program points carry the line numbers of the tree the model was
@@ -18,21 +18,23 @@ Inductive pc :=
 (* CacheFactory.get, cache=True branch *)
 | F93 | F94 | F99 | F100 | F102 | F104 | F105 | F106 | F107 | F108 | F109 | F110 | F111 | F112
 | F114 | F115 | F116 | F117 | F118 | F119 | F121 | F122 | F123 | F124 | F125 | F126
+(* CacheFactory.get, cache=False branch *)
+| F129 | F130 | F131 | F132 | F133 | F134 | F135 | F136 | F137 | F138 | F139 | F141 | F142 | F143 | F144 | F145
 (* SQLObject.get after a miss; CacheSet.put / CacheFactory.put; finishPut *)
-| M951 | M954 | SP311 | P152 | P153 | M956 | SQ314 | Q162
+| M951 | M954 | SP311 | P152 | P153 | P155 | M956 | SQ314 | Q162
 (* _SO_finishCreate; CacheSet.created; CacheFactory.created *)
 | C1397 | C1400 | SK317 | SK318 | SK319 | SK320 | SK322 | K171 | K172 | K177 | K178 | K180
-| K181a | K181t | K181 | K181r
+| K181a | K181t | K181 | K181r | K183a | K183t | K183 | K183r
 (* CacheFactory.cull *)
 | U192 | U193 | U195 | U196 | U197 | U198 | U200 | U201 | U202 | U204 | U205 | U209 | U210 | U214 | U216
 (* SQLObject.expire; CacheSet.expire; CacheFactory.expire *)
 | X1072 | X1074 | X1078 | X1079 | SE325 | SE326 | SE327 | SE328
-| E232 | E234 | E235 | E236 | E237 | E238 | E239 | E241 | X1083
+| E232 | E233 | E234 | E235 | E236 | E237 | E238 | E239 | E241 | X1083
 (* CacheSet.weakrefAll; CacheFactory.expireAll *)
-| SW364 | SW367 | SW368 | A248 | A250 | A251 | A252 | A253 | A254 | A256
+| SW364 | SW367 | SW368 | A248 | A249 | A250 | A251 | A252 | A253 | A254 | A256
 (* sqlmeta.expireAll; CacheSet.getAll; CacheFactory.getAll *)
 | Z681 | Z682 | Z683 | SL375 | SL380 | SL381 | SL383
-| L272 | L273 | L275 | L276 | L279 | L280 | L280n | L281 | L283 | L282.
+| L272 | L273 | L275 | L276 | L278 | L279 | L280 | L280n | L281 | L283 | L282.
 
 Definition pc_eq_dec : forall a b : pc, {a = b} + {a <> b}.
 Proof. decide equality. Defined.
@@ -126,6 +128,7 @@ Record thread := {
 }.
 
 Record state := {
+  s_docache : bool;                       (* CacheFactory.doCache: the `cache` parameter of the connection *)
   s_freq : Z; s_frac : nat;               (* cullFrequency, cullFraction *)
   s_present : bool;                       (* CacheSet.caches has the class *)
   s_strong : dict;                        (* CacheFactory.cache *)
@@ -236,60 +239,60 @@ Fixpoint keys_eqb (a b : list Z) : bool :=
   end.
 
 Definition with_thr (s : state) (f : nat -> thread) : state :=
-  {| s_freq := s_freq s; s_frac := s_frac s; s_present := s_present s; s_strong := s_strong s; 
+  {| s_docache := s_docache s; s_freq := s_freq s; s_frac := s_frac s; s_present := s_present s; s_strong := s_strong s; 
      s_weak := s_weak s; s_sver := s_sver s; s_wver := s_wver s; s_cc := s_cc s; s_co := s_co s; 
      s_lock := s_lock s; s_rows := s_rows s; s_nextid := s_nextid s; s_heap := s_heap s; 
      s_nextobj := s_nextobj s; s_epoch := s_epoch s; s_thr := f; s_n := s_n s; s_unmod := s_unmod s |}.
 Definition with_present (s : state) (b : bool) : state :=
-  {| s_freq := s_freq s; s_frac := s_frac s; s_present := b; s_strong := s_strong s; s_weak := s_weak s; 
+  {| s_docache := s_docache s; s_freq := s_freq s; s_frac := s_frac s; s_present := b; s_strong := s_strong s; s_weak := s_weak s; 
      s_sver := s_sver s; s_wver := s_wver s; s_cc := s_cc s; s_co := s_co s; s_lock := s_lock s; 
      s_rows := s_rows s; s_nextid := s_nextid s; s_heap := s_heap s; s_nextobj := s_nextobj s; 
      s_epoch := s_epoch s; s_thr := s_thr s; s_n := s_n s; s_unmod := s_unmod s |}.
 (* a structural change (a new key, a deleted key) bumps the version seen by iterators *)
 Definition with_strong (s : state) (d : dict) : state :=
-  {| s_freq := s_freq s; s_frac := s_frac s; s_present := s_present s; s_strong := d; s_weak := s_weak s; 
+  {| s_docache := s_docache s; s_freq := s_freq s; s_frac := s_frac s; s_present := s_present s; s_strong := d; s_weak := s_weak s; 
      s_sver := (if keys_eqb (dkeys d) (dkeys (s_strong s)) then s_sver s else S (s_sver s)); 
      s_wver := s_wver s; s_cc := s_cc s; s_co := s_co s; s_lock := s_lock s; s_rows := s_rows s; 
      s_nextid := s_nextid s; s_heap := s_heap s; s_nextobj := s_nextobj s; s_epoch := s_epoch s; 
      s_thr := s_thr s; s_n := s_n s; s_unmod := s_unmod s |}.
 Definition with_weak (s : state) (d : dict) : state :=
-  {| s_freq := s_freq s; s_frac := s_frac s; s_present := s_present s; s_strong := s_strong s; 
+  {| s_docache := s_docache s; s_freq := s_freq s; s_frac := s_frac s; s_present := s_present s; s_strong := s_strong s; 
      s_weak := d; s_sver := s_sver s; 
      s_wver := (if keys_eqb (dkeys d) (dkeys (s_weak s)) then s_wver s else S (s_wver s)); s_cc := s_cc s; 
      s_co := s_co s; s_lock := s_lock s; s_rows := s_rows s; s_nextid := s_nextid s; s_heap := s_heap s; 
      s_nextobj := s_nextobj s; s_epoch := s_epoch s; s_thr := s_thr s; s_n := s_n s; s_unmod := s_unmod s |}.
 Definition with_cc (s : state) (c : Z) : state :=
-  {| s_freq := s_freq s; s_frac := s_frac s; s_present := s_present s; s_strong := s_strong s; 
+  {| s_docache := s_docache s; s_freq := s_freq s; s_frac := s_frac s; s_present := s_present s; s_strong := s_strong s; 
      s_weak := s_weak s; s_sver := s_sver s; s_wver := s_wver s; s_cc := c; s_co := s_co s; 
      s_lock := s_lock s; s_rows := s_rows s; s_nextid := s_nextid s; s_heap := s_heap s; 
      s_nextobj := s_nextobj s; s_epoch := s_epoch s; s_thr := s_thr s; s_n := s_n s; s_unmod := s_unmod s |}.
 Definition with_co (s : state) (c : nat) : state :=
-  {| s_freq := s_freq s; s_frac := s_frac s; s_present := s_present s; s_strong := s_strong s; 
+  {| s_docache := s_docache s; s_freq := s_freq s; s_frac := s_frac s; s_present := s_present s; s_strong := s_strong s; 
      s_weak := s_weak s; s_sver := s_sver s; s_wver := s_wver s; s_cc := s_cc s; s_co := c; 
      s_lock := s_lock s; s_rows := s_rows s; s_nextid := s_nextid s; s_heap := s_heap s; 
      s_nextobj := s_nextobj s; s_epoch := s_epoch s; s_thr := s_thr s; s_n := s_n s; s_unmod := s_unmod s |}.
 Definition with_lock (s : state) (l : option nat) : state :=
-  {| s_freq := s_freq s; s_frac := s_frac s; s_present := s_present s; s_strong := s_strong s; 
+  {| s_docache := s_docache s; s_freq := s_freq s; s_frac := s_frac s; s_present := s_present s; s_strong := s_strong s; 
      s_weak := s_weak s; s_sver := s_sver s; s_wver := s_wver s; s_cc := s_cc s; s_co := s_co s; 
      s_lock := l; s_rows := s_rows s; s_nextid := s_nextid s; s_heap := s_heap s; 
      s_nextobj := s_nextobj s; s_epoch := s_epoch s; s_thr := s_thr s; s_n := s_n s; s_unmod := s_unmod s |}.
 Definition with_rows (s : state) (r : list Z) (n : Z) : state :=
-  {| s_freq := s_freq s; s_frac := s_frac s; s_present := s_present s; s_strong := s_strong s; 
+  {| s_docache := s_docache s; s_freq := s_freq s; s_frac := s_frac s; s_present := s_present s; s_strong := s_strong s; 
      s_weak := s_weak s; s_sver := s_sver s; s_wver := s_wver s; s_cc := s_cc s; s_co := s_co s; 
      s_lock := s_lock s; s_rows := r; s_nextid := n; s_heap := s_heap s; s_nextobj := s_nextobj s; 
      s_epoch := s_epoch s; s_thr := s_thr s; s_n := s_n s; s_unmod := s_unmod s |}.
 Definition with_heap (s : state) (h : nat -> obj) (n : nat) : state :=
-  {| s_freq := s_freq s; s_frac := s_frac s; s_present := s_present s; s_strong := s_strong s; 
+  {| s_docache := s_docache s; s_freq := s_freq s; s_frac := s_frac s; s_present := s_present s; s_strong := s_strong s; 
      s_weak := s_weak s; s_sver := s_sver s; s_wver := s_wver s; s_cc := s_cc s; s_co := s_co s; 
      s_lock := s_lock s; s_rows := s_rows s; s_nextid := s_nextid s; s_heap := h; s_nextobj := n; 
      s_epoch := s_epoch s; s_thr := s_thr s; s_n := s_n s; s_unmod := s_unmod s |}.
 Definition with_epoch (s : state) (e : Z -> nat) : state :=
-  {| s_freq := s_freq s; s_frac := s_frac s; s_present := s_present s; s_strong := s_strong s; 
+  {| s_docache := s_docache s; s_freq := s_freq s; s_frac := s_frac s; s_present := s_present s; s_strong := s_strong s; 
      s_weak := s_weak s; s_sver := s_sver s; s_wver := s_wver s; s_cc := s_cc s; s_co := s_co s; 
      s_lock := s_lock s; s_rows := s_rows s; s_nextid := s_nextid s; s_heap := s_heap s; 
      s_nextobj := s_nextobj s; s_epoch := e; s_thr := s_thr s; s_n := s_n s; s_unmod := s_unmod s |}.
 Definition with_unmod (s : state) (b : bool) : state :=
-  {| s_freq := s_freq s; s_frac := s_frac s; s_present := s_present s; s_strong := s_strong s; 
+  {| s_docache := s_docache s; s_freq := s_freq s; s_frac := s_frac s; s_present := s_present s; s_strong := s_strong s; 
      s_weak := s_weak s; s_sver := s_sver s; s_wver := s_wver s; s_cc := s_cc s; s_co := s_co s; 
      s_lock := s_lock s; s_rows := s_rows s; s_nextid := s_nextid s; s_heap := s_heap s; 
      s_nextobj := s_nextobj s; s_epoch := s_epoch s; s_thr := s_thr s; s_n := s_n s; s_unmod := b |}.
@@ -415,7 +418,7 @@ Definition step (s : state) (t : nat) : option state :=
   | SG306 => goto (with_present s true) t th SG308
   | SG308 => goto s t th F93
   (* ---- CacheFactory.get *)
-  | F93 => goto s t th F94
+  | F93 => goto s t th (if s_docache s then F94 else F129)
   | F94 => goto s t th (if Z.ltb (s_freq s) (s_cc s) then F99 else F102)
   | F99 => goto (with_cc s 0%Z) t th F100
   | F100 => goto s t (set_cret th RetGet) U192
@@ -453,6 +456,32 @@ Definition step (s : state) (t : nat) : option state :=
             end
   | F125 => release s t th (set_pc th F126)
   | F126 => Some (put_thr s t (finish th (match t_val th with Some o => RObj o i (t_ep th) | None => RNone end)))
+  (* ---- CacheFactory.get, cache=False: only the weak dict, looked at without the lock first *)
+  | F129 => goto s t th F130
+  | F130 => match dget (s_weak s) i with
+            | Some o => goto s t (set_val th (deref s o) (s_epoch s i)) F131
+            | None => goto s t th F133
+            end
+  | F131 => goto s t th (match t_val th with Some _ => F132 | None => F135 end)
+  | F132 => Some (put_thr s t (finish th (match t_val th with Some o => RObj o i (t_ep th) | None => RNone end)))
+  | F133 => goto s t th F134
+  | F134 => goto s t th F135
+  | F135 => acquire s t th F136
+  | F136 => goto s t th F137
+  | F137 => match dget (s_weak s) i with
+            | Some o => goto s t (set_val th (deref s o) (s_epoch s i)) F141
+            | None => goto s t th F138
+            end
+  | F138 => goto s t th F139
+  | F139 => goto s t th M951
+  | F141 => goto s t th (match t_val th with None => F142 | Some _ => F144 end)
+  | F142 => match dget (s_weak s) i with
+            | Some _ => goto (with_weak s (ddel (s_weak s) i)) t th F143
+            | None => crash s t th KeyErr
+            end
+  | F143 => goto s t th M951
+  | F144 => release s t th (set_pc th F145)
+  | F145 => Some (put_thr s t (finish th (match t_val th with Some o => RObj o i (t_ep th) | None => RNone end)))
   (* ---- SQLObject.get after a miss: construct + _init (SELECT), put, finishPut *)
   | M951 => if existsb (Z.eqb i) (s_rows s)
             then let n := s_nextobj s in
@@ -460,9 +489,13 @@ Definition step (s : state) (t : nat) : option state :=
             else goto s t (set_exc (set_val th None (t_ep th)) (Some NotFound)) M956
   | M954 => goto s t th SP311
   | SP311 => goto s t th P152
-  | P152 => goto s t th P153
+  | P152 => goto s t th (if s_docache s then P153 else P155)
   | P153 => match t_val th with
             | Some o => goto (with_strong s (dset (s_strong s) i o)) t (set_val th (Some o) (s_epoch s i)) M956
+            | None => crash s t th KeyErr
+            end
+  | P155 => match t_val th with
+            | Some o => goto (with_weak s (dset (s_weak s) i o)) t (set_val th (Some o) (s_epoch s i)) M956
             | None => crash s t th KeyErr
             end
   | M956 => goto s t th SQ314
@@ -484,7 +517,7 @@ Definition step (s : state) (t : nat) : option state :=
   | SK319 => goto s t th SK320
   | SK320 => goto (with_present s true) t th SK322
   | SK322 => goto s t th K171
-  | K171 => goto s t th K172
+  | K171 => goto s t th (if s_docache s then K172 else K183a)
   | K172 => goto s t th (if Z.ltb (s_freq s) (s_cc s) then K177 else K180)
   | K177 => goto (with_cc s 0%Z) t th K178
   | K178 => goto s t (set_cret th RetCreated) U192
@@ -495,6 +528,13 @@ Definition step (s : state) (t : nat) : option state :=
                   (set_val th (Some (self_of th)) (s_epoch s i)) K181r
   | K181r => (* release; created() returns and _SO_finishCreate runs self._init(id): only now the instance is complete *)
              release (with_heap s (set_obj_init (s_heap s) (self_of th)) (s_nextobj s)) t th
+               (finish th (match t_val th with Some o => RObj o i (t_ep th) | None => RNone end))
+  (* created, cache=False: the weak dict, under the lock since 2cc82cd *)
+  | K183a => acquire s t th K183t
+  | K183t => goto s t th K183
+  | K183 => goto (with_weak s (dset (s_weak s) i (self_of th))) t
+                  (set_val th (Some (self_of th)) (s_epoch s i)) K183r
+  | K183r => release (with_heap s (set_obj_init (s_heap s) (self_of th)) (s_nextobj s)) t th
                (finish th (match t_val th with Some o => RObj o i (t_ep th) | None => RNone end))
   (* ---- cull *)
   | U192 => acquire s t th U193
@@ -546,7 +586,8 @@ Definition step (s : state) (t : nat) : option state :=
   | SE326 => goto s t th (if s_present s then E232 else SE327)
   | SE327 => goto s t th SE328
   | SE328 => goto s t th X1083
-  | E232 => goto s t th E234
+  | E232 => goto s t th (if s_docache s then E234 else E233)
+  | E233 => goto s t th X1083
   | E234 => acquire s t th E235
   | E235 => goto s t th E236
   | E236 => goto s t th (if dmem (s_strong s) (t_key th) then E237 else E238)
@@ -562,7 +603,8 @@ Definition step (s : state) (t : nat) : option state :=
   | SW364 => goto s t th SW367
   | SW367 => if s_present s then goto s t th SW368 else xall_return s t th
   | SW368 => goto s t th A248
-  | A248 => goto s t th A250
+  | A248 => goto s t th (if s_docache s then A250 else A249)
+  | A249 => xall_return s t th
   | A250 => acquire s t th A251
   | A251 => goto s t (set_iter th None) A252
   | A252 => match iter_next (t_iter th) (length (s_strong s)) (s_sver s) with
@@ -597,8 +639,9 @@ Definition step (s : state) (t : nat) : option state :=
   | SL383 => Some (put_thr s t (finish th RNone))
   | L272 => acquire s t th L273
   | L273 => goto s t th L275
-  | L275 => goto s t th L276
+  | L275 => goto s t th (if s_docache s then L276 else L278)
   | L276 => goto s t (set_iter (set_all th (dvals (s_strong s))) None) L279
+  | L278 => goto s t (set_iter (set_all th []) None) L279
   | L279 => match iter_next (t_iter th) (length (s_weak s)) (s_wver s) with
             | Some (inl pos) =>
                 match nth_error (s_weak s) pos with
@@ -629,11 +672,15 @@ Definition step (s : state) (t : nat) : option state :=
 (* ------------------------------------------------------------------ initial state, runs *)
 Definition max_row (rows : list Z) : Z := fold_right Z.max 0%Z rows.
 
-Definition init (freq : Z) (frac : nat) (rows : list Z) (progs : list (list op)) : state :=
-  {| s_freq := freq; s_frac := frac; s_present := false; s_strong := []; s_weak := []; s_sver := 0; s_wver := 0;
+Definition initc (dc : bool) (freq : Z) (frac : nat) (rows : list Z) (progs : list (list op)) : state :=
+  {| s_docache := dc; s_freq := freq; s_frac := frac; s_present := false; s_strong := []; s_weak := []; s_sver := 0; s_wver := 0;
      s_cc := 0%Z; s_co := 0; s_lock := None; s_rows := rows; s_nextid := (max_row rows + 1)%Z;
      s_heap := fun _ => fresh_obj 0; s_nextobj := 0; s_epoch := fun _ => 0;
      s_thr := fun t => new_thread (nth t progs []); s_n := length progs; s_unmod := false |}.
+
+(* the configuration the first version of the model had: cache=True *)
+Definition init (freq : Z) (frac : nat) (rows : list Z) (progs : list (list op)) : state :=
+  initc true freq frac rows progs.
 
 Fixpoint run (s : state) (sched : list nat) : option state :=
   match sched with
